@@ -1,10 +1,19 @@
-/- `threads N seed nops`: the harness runs N seeded operation lists concurrently and then sequentially and
-   answers 0 when every thread's digest equals its sequential digest — which is what the footprint
-   theorem (MpirProofs/Props/C15.lean) predicts for every interleaving. -/
+/- `threads N seed nops` / `threadsx N seed nops profile`: the harness runs N seeded operation lists concurrently and
+   then sequentially and answers 0 when every thread's digest (and, for `threadsx`, its memory accounting) equals the
+   sequential one — which is what the footprint theorems (MpirProofs/Props/C15.lean, C15_globals.lean) predict for
+   every interleaving.
+   `cells_trace [codes]`: a sequential trace of the API calls that touch the documented shared cells; answered by
+   the executable cell model `Mpir.Threads.runApi`. -/
 import Mpir.Proto
+import Mpir.Model.Threads
 namespace Mpir.Ops.Threads
 open Mpir
 def handle : Handler
   | "threads", [.num _, .num _, .num _] => some [natTok 0]
+  | "threadsx", [.num _, .num _, .num _, .num p] => if 0 ≤ p ∧ p ≤ 127 then some [natTok 0] else none
+  | "cells_trace", [.vec codes] =>
+      match Threads.decodeCalls codes with
+      | some calls => some [.vec (Threads.runApi Threads.cells0 calls).2]
+      | none => none
   | _, _ => none
 end Mpir.Ops.Threads
